@@ -257,6 +257,13 @@ class Kernel:
                 flt_s = le_s[1] if le_s is not None else TRUE
                 if le_b is not None and le_b[0] == base_s and flt_s == TRUE:
                     return self.kfold(body)
+                if body[0] == "res" and body[1] in self.sx.loops and flt_s == TRUE:
+                    # ... or in front of a collecting loop over xs that starts from []: the loop leaves [] for an empty xs
+                    Lb = self.sx.loops[body[1]]
+                    le_l = self.listexpr(Lb.source)
+                    base_l = le_l[0] if le_l is not None else self.canon_top(Lb.source)
+                    if Lb.kind == "for" and base_l == base_s and Lb.init.get(body[2]) == ("list", ()):
+                        return self.kfold(body)
         if t[0] == "ite" and len(t) == 4 and ("list", ()) not in (t[2], t[3]):
             # the same fold computed on two paths (in two call contexts): it is that fold
             ka, kb = self.kfold(t[2]), self.kfold(t[3])
